@@ -248,35 +248,45 @@ impl Node {
 
     /// Clones the node and all of its descendants, returning a handle to the new subtree.
     ///
-    /// This function will run into infinite recursion when the DOM tree contains cycles and it makes
-    /// no attempts to guard against that.
+    /// The copy is made iteratively, so deep trees do not overflow the stack.
     fn clone_with_subtree(&self) -> Rc<Self> {
-        let children: Vec<Rc<Self>> = self
-            .children
-            .borrow()
-            .iter()
-            .map(|child| child.clone_with_subtree())
-            .collect();
-        let clone = Rc::new(Self {
-            parent: Cell::new(None),
-            data: self.data.clone(),
-            children: RefCell::new(children),
-        });
-        for child in clone.children.borrow().iter() {
-            child.parent.set(Some(Rc::downgrade(&clone)));
+        fn shallow(node: &Node) -> Rc<Node> {
+            Rc::new(Node {
+                parent: Cell::new(None),
+                data: node.data.clone(),
+                children: RefCell::new(Vec::new()),
+            })
         }
-        // `data.clone()` shares the template contents with the original: copy them too.
-        if let NodeData::Element {
-            template_contents, ..
-        } = &clone.data
-        {
-            let copy = template_contents
-                .borrow()
-                .as_ref()
-                .map(|contents| contents.clone_with_subtree());
-            *template_contents.borrow_mut() = copy;
+
+        let root = shallow(self);
+        // Pairs of (original, copy) whose children still have to be copied.
+        let mut pending: Vec<(Rc<Self>, Rc<Self>)> = Vec::new();
+        let copy_below =
+            |original: &Node, copy: &Rc<Node>, pending: &mut Vec<(Rc<Node>, Rc<Node>)>| {
+                for child in original.children.borrow().iter() {
+                    let child_copy = shallow(child);
+                    child_copy.parent.set(Some(Rc::downgrade(copy)));
+                    copy.children.borrow_mut().push(child_copy.clone());
+                    pending.push((child.clone(), child_copy));
+                }
+                // `data.clone()` shares the template contents with the original: copy them too.
+                if let NodeData::Element {
+                    template_contents, ..
+                } = &copy.data
+                {
+                    let original_contents = template_contents.borrow_mut().take();
+                    if let Some(original_contents) = original_contents {
+                        let contents_copy = shallow(&original_contents);
+                        *template_contents.borrow_mut() = Some(contents_copy.clone());
+                        pending.push((original_contents, contents_copy));
+                    }
+                }
+            };
+        copy_below(self, &root, &mut pending);
+        while let Some((original, copy)) = pending.pop() {
+            copy_below(&original, &copy, &mut pending);
         }
-        clone
+        root
     }
 }
 
